@@ -796,7 +796,8 @@ class PlSqlDialect(AnsiSqlDialect):
             length = sql_ansi_type[1]
             if length > MAX_INTEGER:
                 # The precision is the number of digits needed, not the limit itself.
-                result = ("number", len(str(length)), 0)
+                # The limit is sign adjusted: -(10 ** n) arrives as 10 ** n - 1 but needs a digit more.
+                result = ("number", len(str(length + 1)), 0)
 
         return result
 
@@ -1014,7 +1015,7 @@ class TransactSqlDialect(AnsiSqlDialect):
             elif limit <= MAX_BIGINT:
                 result = ("bigint", limit)
             else:
-                result = ("decimal", len(str(limit)), 0)
+                result = ("decimal", len(str(limit + 1)), 0)
         else:
             result = sql_ansi_type
 
@@ -1337,7 +1338,7 @@ class Db2SqlDialect(AnsiSqlDialect):
             elif length <= MAX_BIGINT:
                 result = ("bigint", length)
             else:
-                result = ("decimal", len(str(length)))
+                result = ("decimal", len(str(length + 1)))
         return result
 
     def __str__(self):
